@@ -16,6 +16,7 @@ BT = "src/bintree.c"
 RB = "src/rbtree.c"
 HP = "src/heap.c"
 AR = "src/array.c"
+VE = "src/vector.c"
 MM = "src/memory.c"
 MH = "include/cstl/memory.h"
 HS = "src/hash.c"
@@ -296,6 +297,12 @@ M("c11-reverse-odd", "C11", "reverse stops one pair early",
   (AR, "    for (i = 0, j = count - 1; i < j; i++, j--) {\n        swap(", "    for (i = 0, j = count - 1; i + 1 < j; i++, j--) {\n        swap("))
 M("c11-swap-8-as-4", "C11", "cstl_swap moves only 4 bytes of 8-byte elements",
   ("include/cstl/common.h", "    case sizeof(uint64_t): EXCH(uint64_t, x, y, t); break;", "    case sizeof(uint64_t): EXCH(uint32_t, x, y, t); break;"))
+M("c11-vector-search-cap", "C11", "vector binary search covers capacity instead of size",
+  (VE, "    return cstl_raw_array_search(v->elem.base,\n                                 v->count, v->elem.size,", "    return cstl_raw_array_search(v->elem.base,\n                                 v->cap, v->elem.size,"))
+M("c11-vector-find-short", "C11", "vector find stops one element early",
+  (VE, "    return cstl_raw_array_find(v->elem.base,\n                               v->count, v->elem.size,", "    return cstl_raw_array_find(v->elem.base,\n                               v->count ? v->count - 1 : 0, v->elem.size,"))
+M("c11-vector-reverse-scratch", "C11", "vector reverse uses the last element as scratch",
+  (VE, "                           swap, __cstl_vector_at(v, v->cap));\n}\n\nvoid cstl_vector_swap", "                           swap, __cstl_vector_at(v, v->count ? v->count - 1 : 0));\n}\n\nvoid cstl_vector_swap"))
 # ----------------------------------------------------------------- C15
 M("c15-dlist-cb-before-unlink", "C15", "dlist clear calls back before unlinking",
   (DL, "    while (l->size > 0) {\n        clr(__cstl_dlist_erase(l, l->h.n), NULL);\n    }", "    while (l->size > 0) {\n        struct cstl_dlist_node * const n = l->h.n;\n        clr(__cstl_dlist_element(l, n), NULL);\n        __cstl_dlist_erase(l, n);\n    }"))
@@ -336,6 +343,7 @@ M("c20-weak-reset-raw", "C20", "weak_ptr_reset reads the pointer field directly"
   (MM, "void cstl_weak_ptr_reset(cstl_weak_ptr_t * const wp)\n{\n    struct cstl_shared_ptr_data * const data =\n        cstl_guarded_ptr_get(&wp->data);", "void cstl_weak_ptr_reset(cstl_weak_ptr_t * const wp)\n{\n    struct cstl_shared_ptr_data * const data = wp->data.ptr;"))
 # ----------------------------------------------------------------- C14
 AR = "src/array.c"
+VE = "src/vector.c"
 M("c14-at-no-offset", "C14", "at ignores the view offset",
   (AR, "        return __cstl_raw_array_at(ra->buf, ra->sz, a->off + i);", "        return __cstl_raw_array_at(ra->buf, ra->sz, i);"))
 M("c14-slice-share-first", "C14", "slice shares before checking bounds",
